@@ -73,7 +73,7 @@ def run_workers(prop, cfg, binp, tier, seed, known_ids, outdir):
         procs.append((k, p, out, log))
     hard = cfg.get("hard_timeout_" + tier, 3600 if tier == "quick" else 6 * 3600)
     t0 = time.time()
-    results, errors = [], []
+    results, errors, crashes = [], [], []
     for k, p, out, log in procs:
         try:
             rc = p.wait(timeout=max(1, hard - (time.time() - t0)))
@@ -89,7 +89,16 @@ def run_workers(prop, cfg, binp, tier, seed, known_ids, outdir):
         else:
             tail = open(os.path.join(outdir, f"shard{k}.log")).read()[-3000:]
             errors.append(f"shard {k}: worker exited with {rc}\n{tail}")
-    return results, errors
+            j = out + ".journal"
+            if os.path.exists(j):
+                try:
+                    v = json.load(open(j))
+                    v["observed"] = "worker process died (exit %s): %s" % (rc, tail[:1500])
+                    v["expected"] = "evaluation returns a result or an error"
+                    crashes.append(v)
+                except ValueError:
+                    pass
+    return results, errors, crashes
 
 
 def merge(results):
@@ -231,9 +240,20 @@ def main():
         sys.exit(2)
 
     outdir = os.path.join(WORK, "out", prop, tier)
-    results, errors = run_workers(prop, cfg, binp, tier, seed, known_ids, outdir)
+    results, errors, crashes = run_workers(prop, cfg, binp, tier, seed, known_ids, outdir)
     m = merge(results)
-    if errors and not results:
+    # a worker killed by a fatal runtime error while executing a journaled case: believed only if the
+    # case kills a fresh process again, twice
+    for v in crashes:
+        path = write_replay(prop, v)
+        outs = replay_twice(cfg, binp, path)
+        if all(o[0] not in (0, 1) or "REPLAY: violation reproduced" in o[1] for o in outs):
+            m["violations"].append(v)
+            m["n_violations"] += 1
+            m["crash_replays"] = m.get("crash_replays", 0) + 1
+        else:
+            os.remove(path)
+    if errors and not results and not m["violations"]:
         print("HARNESS-ERROR: no worker produced a result")
         for e in errors:
             print(e)
@@ -264,7 +284,7 @@ def main():
             lines.append("data race reported by the free-running -race pass:\n" + race_info["report"][:1500])
     for v in m["violations"]:
         viol_paths.append(write_replay(prop, v))
-    if m["violations"] and "Replay" not in cfg.get("skip", []):  # (race reports have no replay)
+    if m["violations"] and not m.get("crash_replays") and "Replay" not in cfg.get("skip", []):  # (race reports have no replay)
         outs = replay_twice(cfg, binp, viol_paths[0])
         if outs[0] != outs[1]:
             print("HARNESS-ERROR: replaying the first violation twice gave different observations; not reported as a verdict")
